@@ -447,7 +447,29 @@ def select__predicate(self: XPathToken, context: ta.ContextType = None) -> Itera
     if context is None:
         raise self.missing_context()
 
-    for _ in self[0].select_with_focus(context):
+    def select_with_reverse_focus() -> Iterator[ta.ItemType]:
+        # A further predicate of a reverse axis step: positions are still
+        # counted in reverse document order (e.g. ancestor::*[@a][1]).
+        status = context.item, context.size, context.position, context.axis
+        results = [x for x in self[0].select(context)]
+        context.item, context.size, context.position, context.axis = status
+        context.axis = None
+        context.size = context.position = len(results)
+        for context.item in results:
+            yield context.item
+            context.position -= 1
+        context.item, context.size, context.position, context.axis = status
+
+    step = self[0]
+    while step.symbol == '[':
+        step = step[0]
+
+    if self[0].symbol == '[' and getattr(step, 'reverse_axis', False):
+        focus_iterator = select_with_reverse_focus()
+    else:
+        focus_iterator = self[0].select_with_focus(context)
+
+    for _ in focus_iterator:
         if (self[1].label in ('axis', 'kind test') or self[1].symbol == '..') \
                 and not isinstance(context.item, XPathNode):
             raise self.error('XPTY0020')
